@@ -1421,7 +1421,11 @@ class Interpreter(BaseInterpreter[TContext, TEvent]):
             #    already gone. Measured at +2 permanently live asyncio tasks
             #    per invocation — an unbounded leak for any server that
             #    invokes a child machine per request.
+            #
+            #    A child that finished or failed ON ITS OWN needs it as well:
+            #    its own child actors, timers and delayed sends are still
+            #    live, and once it is forgotten here nothing can reach them.
             if child_interpreter is not None:
                 self._actors.pop(child_interpreter.id, None)
-                if child_interpreter.status == "running":
+                if child_interpreter.status != "stopped":
                     await child_interpreter.stop()
